@@ -873,14 +873,16 @@ impl Property for P14 {
     fn random_runs(tier: Tier) -> u64 {
         match tier {
             Tier::Quick => 1_500_000,
-            Tier::Thorough => 60_000_000,
+            Tier::Thorough => 150_000_000,
         }
     }
 
     fn generate(r: &mut Rng, tier: Tier) -> C14 {
         let family = *r.pick(IO_TYS);
         let big = r.chance(1, if tier == Tier::Thorough { 40 } else { 400 });
-        let nitems = if big { r.range(1, 2) } else { 1 + r.below(8) } as usize;
+        let max_frames = if tier == Tier::Thorough && r.chance(1, 4) { 20 } else { 8 };
+        let max_frames = if tier == Tier::Thorough && r.chance(1, 4) { 20 } else { 8 };
+    let nitems = if big { r.range(1, 2) } else { 1 + r.below(max_frames) } as usize;
         let profile = r.below(4);
         let en_poison = r.chance(1, 3);
         let en_hostile = r.chance(1, 6);
@@ -933,10 +935,11 @@ impl Property for P14 {
             items.insert(at, WKind::Raw { declared, body: vec![0x42; behind] });
         }
         let len = stream_len(&items);
+        let deep = tier == Tier::Thorough && r.chance(1, 4);
         let lane = |r: &mut Rng, en_short: bool, en_eintr: bool, fatal: bool| -> Vec<Step> {
             let density = *r.pick(&[1u64, 1, 3, 8]);
             let gran = *r.pick(&[1u32, 2, 4, 4, 16, 64, 1024]);
-            let n = r.usize_in(0, 64);
+            let n = r.usize_in(0, if deep { 160 } else { 64 });
             let mut l: Vec<Step> = (0..n)
                 .map(|_| {
                     if en_eintr && r.below(16) < density {
